@@ -3,7 +3,7 @@
    included) or an error with the same code. CrossProofs gives this "unless the
    stream run exhausts its fuel"; C03_total removes the exception and
    C03_from_trait_no_panic the panic case. *)
-From Coq Require Import SpecFloat.
+From Coq Require Import SpecFloat Lia.
 Require Import Base Value Float PrintOptions ParseOptions Utf8 Reader Scan Num NumberOps Parser.
 Require Import DepthProofs FuelProofs FloatFuel CrossProofs.
 
@@ -55,3 +55,80 @@ Section Agree.
     - apply rpres_same; [exact H|]. apply (proj2 (from_trait_no_panic ro alpha fast std_parse SrcIo (bytes_events s))).
   Qed.
 End Agree.
+
+(* ---- the fuel is irrelevant once it suffices ---- *)
+Require Import FuelMono.
+Section Irrelevant.
+  Variable ro : parse_options.
+  Variable alpha : N -> bool.
+  Variable fast : bool.
+  Variable std_parse : N -> Z -> f64.
+  Let Hfp := f64_from_parts_ok fast std_parse.
+
+  (* from_trait / datum::from_trait with an explicit step budget *)
+  Definition from_trait_fuel (fuel : nat) (k : src_kind) (inp : list event) : pres value :=
+    fst (pbind (expect_value ro alpha fast std_parse fuel) (fun v => pbind (expect_end_p fuel) (fun _ => pret v)) (init_state k inp)).
+  Definition datum_from_trait_fuel (fuel : nat) (k : src_kind) (inp : list event) : pres datum :=
+    fst (pbind (expect_datum ro alpha fast std_parse fuel) (fun v => pbind (expect_end_p fuel) (fun _ => pret v)) (init_state k inp)).
+
+  Lemma peq_expect_end n fi fs : (S n < fi)%nat -> (fi <= fs)%nat -> peq n (expect_end_p fi) (expect_end_p fs).
+  Proof.
+    intros Hn Hf. unfold expect_end_p. apply peq_liftR; [apply (ok_expect_end alpha fast std_parse Hfp); exact Hn|apply um_expect_end; exact Hf].
+  Qed.
+
+  Theorem every_call_fuel_irrelevant fi fs n s : (2 * n + 3 <= fi)%nat -> (fi <= fs)%nat -> (rem (rd s) <= n)%nat ->
+    next_value ro alpha fast std_parse fi s = next_value ro alpha fast std_parse fs s /\
+    next_datum ro alpha fast std_parse fi s = next_datum ro alpha fast std_parse fs s.
+  Proof.
+    intros Hn Hf Hs. split.
+    - apply (proj1 (mono_values ro alpha fast std_parse Hfp fi fs Hf) n Hn s Hs).
+    - apply (proj1 (mono_datums ro alpha fast std_parse Hfp fi fs Hf) n Hn s Hs).
+  Qed.
+
+  Theorem from_trait_fuel_irrelevant fuel k inp : (fuel_for inp <= fuel)%nat ->
+    from_trait_fuel fuel k inp = from_trait ro alpha fast std_parse k inp /\
+    datum_from_trait_fuel fuel k inp = datum_from_trait ro alpha fast std_parse k inp.
+  Proof.
+    intros Hf. unfold from_trait_fuel, datum_from_trait_fuel, from_trait, datum_from_trait. cbv zeta.
+    assert (Hn : (2 * length inp + 3 <= fuel_for inp)%nat) by (unfold fuel_for; lia).
+    assert (Hn2 : (S (length inp) < fuel_for inp)%nat) by (unfold fuel_for; lia).
+    assert (Hr : (rem (rd (init_state k inp)) <= length inp)%nat) by (unfold init_state, mk_reader, rem; cbn [rd rinput]; lia).
+    split; symmetry; f_equal.
+    - refine (peq_bind (length inp) _ _ _ _ _ _ _ (init_state k inp) Hr).
+      + apply pmono_pok. apply (pok_expect_value ro alpha fast std_parse Hfp); exact Hn.
+      + unfold expect_value. apply peq_bind.
+        * intros s Hs. apply (proj1 (proj1 (fuel_values ro alpha fast std_parse Hfp _) _ Hn s Hs)).
+        * apply (proj1 (mono_values ro alpha fast std_parse Hfp _ _ Hf)). exact Hn.
+        * intros o. apply peq_refl.
+      + intros v. apply peq_bind; [apply pmono_pok; apply (pok_expect_end alpha fast std_parse Hfp); exact Hn2|apply peq_expect_end; assumption|intros; apply peq_refl].
+    - refine (peq_bind (length inp) _ _ _ _ _ _ _ (init_state k inp) Hr).
+      + apply pmono_pok. apply (pok_expect_datum ro alpha fast std_parse Hfp); exact Hn.
+      + unfold expect_datum. apply peq_bind.
+        * intros s Hs. apply (proj1 (proj1 (fuel_datums ro alpha fast std_parse Hfp _) _ Hn s Hs)).
+        * apply (proj1 (mono_datums ro alpha fast std_parse Hfp _ _ Hf)). exact Hn.
+        * intros o. apply peq_refl.
+      + intros v. apply peq_bind; [apply pmono_pok; apply (pok_expect_end alpha fast std_parse Hfp); exact Hn2|apply peq_expect_end; assumption|intros; apply peq_refl].
+  Qed.
+End Irrelevant.
+
+(* ---- a stream with Interrupted results anywhere against the slice of its bytes ---- *)
+Require Import SimFramework InterruptProofs.
+Lemma strip_length l : (length (strip l) <= length l)%nat.
+Proof. induction l as [|[b| |e] l IH]; cbn [strip length]; lia. Qed.
+Lemma strip_bytes (s : bytes) : strip (bytes_events s) = bytes_events s.
+Proof. induction s as [|b s IH]; cbn [bytes_events map strip]; [reflexivity|]. unfold bytes_events in IH. rewrite IH. reflexivity. Qed.
+
+Theorem slice_stream_interrupts_agree ro alpha fast std_parse (s : bytes) (inp : list event) :
+  strip inp = bytes_events s ->
+  same_outcome (from_trait ro alpha fast std_parse SrcSlice (bytes_events s)) (from_trait ro alpha fast std_parse SrcIo inp).
+Proof.
+  intros Hst.
+  assert (E : from_trait ro alpha fast std_parse SrcIo inp = from_trait ro alpha fast std_parse SrcIo (bytes_events s)).
+  { rewrite (from_trait_is ro alpha fast std_parse inp SrcIo).
+    rewrite (from_trait_interrupts ro alpha fast std_parse (fuel_for inp) inp (bytes_events s) ltac:(rewrite strip_bytes; exact Hst)).
+    change (from_trait_with ro alpha fast std_parse (fuel_for inp) SrcIo (bytes_events s))
+      with (from_trait_fuel ro alpha fast std_parse (fuel_for inp) SrcIo (bytes_events s)).
+    apply (proj1 (from_trait_fuel_irrelevant ro alpha fast std_parse (fuel_for inp) SrcIo (bytes_events s)
+                    ltac:(unfold fuel_for; pose proof (strip_length inp) as H; rewrite Hst in H; lia))). }
+  rewrite E. apply slice_stream_agree.
+Qed.
